@@ -367,6 +367,13 @@ def exec_for(E, s: ast.For, st, fr):
     if spec is not None and spec.cut is not None and fr.verify:
         do_cut(E, st, fr, spec, k)
     dom = iter_domain(E, s.iter, st, fr)
+    # keep the iterated value reachable (its defining facts must survive path-condition pruning)
+    if dom.get("seq") is not None:
+        from .engine import V as _V
+        try:
+            st.locals["$dom%d" % id(s)] = _V(ty.SeqV(dom["et"]), dom["seq"](st))
+        except Exception:
+            pass
     names = assigned_names(s.body) | assigned_names([ast.Expr(value=s.target)] if False else []) | {n.id for n in ast.walk(s.target) if isinstance(n, ast.Name)}
     entry = st.copy()
     fr.loop_entry.append(entry)
@@ -386,6 +393,13 @@ def exec_for(E, s: ast.For, st, fr):
                 so = seq_ops(dom["et"])
                 b.assume(so.Take(sq, i + 1) == so.App(so.Take(sq, i), so.At(sq, i)))
                 b.assume(so.Mem(sq, so.At(sq, i)))
+            if spec is not None:
+                for usrc in spec.unfold:
+                    uv = E.sev(usrc, b, fr)
+                    usq, uet = E.as_seq(uv, b)
+                    uso = seq_ops(uet)
+                    b.assume(z3.Implies(z3.And(0 <= i, i < uso.Len(usq)),
+                                        z3.And(uso.Take(usq, i + 1) == uso.App(uso.Take(usq, i), uso.At(usq, i)), uso.Mem(usq, uso.At(usq, i)))))
             b.locals["$idx%d" % id(s)] = V(INT, i + 1)
             return E.ex_block(s.body, b, fr)
 
